@@ -3,7 +3,7 @@
     f32, scaled by a power of two where stated); an implementation distance arrives as its
     binary32 BIT PATTERN and is compared with the model's exact integer through Vec/F32.v. *)
 From Coq Require Import ZArith List Bool.
-From GV Require Export Vec.Hnsw Vec.Brute Vec.Kernel Vec.F32 Vec.Quant Vec.Inst Vec.Wrap.
+From GV Require Export Vec.Hnsw Vec.Brute Vec.Kernel Vec.F32 Vec.Quant Vec.Inst Vec.Wrap Vec.SmallSort.
 Import ListNotations.
 Open Scope Z_scope.
 
@@ -217,9 +217,9 @@ Definition k_qoverflow (k : Z) (mults : list Z) (resc : bool) : bool :=
     integer images of the f32 distances ---- *)
 Definition okey_eqb (a b : option Z) : bool := opt_eqb Z.eqb a b.
 Definition chk_brute_keys (xs : list (Z * option Z)) (k : Z) (impl : list (Z * option Z)) : bool :=
-  list_eqb (fun a b => (fst a =? fst b) && okey_eqb (snd a) (snd b)) (brute_keys leb_pc xs k) impl.
+  list_eqb (fun a b => (fst a =? fst b) && okey_eqb (snd a) (snd b)) (brute_small lt_pc xs k) impl.
 (** finding class C18-K2: some distance is NaN *)
-Definition k_nan_distance (xs : list (Z * option Z)) : bool := existsb (fun p => is_nan (snd p)) xs.
+Definition k_nan_distance (xs : list (Z * option Z)) : bool := has_nan xs.
 
 (** ---- VectorScanOperator / VectorJoinOperator output loops ---- *)
 Definition zz_eqb (a b : Z * Z) : bool := (fst a =? fst b) && (snd a =? snd b).
